@@ -181,7 +181,7 @@ def do_replay(prop, path):
     return 0
 
 
-def run_batch(pid, tier, seed, workers=16, max_cases=None):
+def run_batch(pid, tier, seed, workers=16, max_cases=None, dump_sigs=None):
     prop = load_prop(pid)
     known = load_known()
     t0 = time.time()
@@ -248,6 +248,10 @@ def run_batch(pid, tier, seed, workers=16, max_cases=None):
         for v in out["violations"]:
             viol.append((idx, v))
 
+    if dump_sigs:
+        with open(dump_sigs, "w") as f:
+            json.dump([[i, (r or {}).get("sig"), sorted({v["clause"] for v in (r or {}).get("violations", [])})]
+                       for i, r in enumerate(results)], f)
     known_hits = {}
     new = []
     # witnesses of the listed (open) findings are re-run on every invocation, so that each listed
@@ -386,6 +390,7 @@ def main(argv=None):
     ap.add_argument("--no-build", action="store_true")
     ap.add_argument("--workers", type=int, default=int(os.environ.get("VERIF_WORKERS", "16")))
     ap.add_argument("--max-cases", type=int)
+    ap.add_argument("--dump-sigs", help="write [case index, trace signature, violated clauses] per case (determinism self-test)")
     a = ap.parse_args(argv)
     pid = a.prop.upper()
     seed = int(os.environ.get("VERIF_SEED", DEFAULT_SEED))
@@ -398,7 +403,7 @@ def main(argv=None):
         os.makedirs(core.SHM, exist_ok=True)
         if a.replay:
             return do_replay(prop, a.replay)
-        return run_batch(pid, a.tier, seed, a.workers, a.max_cases)
+        return run_batch(pid, a.tier, seed, a.workers, a.max_cases, a.dump_sigs)
     except HarnessError as e:
         print("HARNESS ERROR: %s" % e, file=sys.stderr)
         return 2
